@@ -14,8 +14,8 @@ from harness.framework import Suite
 
 PID = "C02"
 TRANSLATE = True
-TRANSLATE_ALGO = ["AlgoParse"]   # Gen/AlgoParse.lean is regenerated on every run from io.py::parse_swc (the read loop and its context) and file.py::FileReader.__exit__
-DRIVER_FILES = ["SwcVerif/Model/AlgoRunParse.lean"]
+TRANSLATE_ALGO = ["AlgoParse", "AlgoReadFront"]   # Gen/AlgoParse.lean is regenerated on every run from io.py::parse_swc (the read loop and its context) and file.py::FileReader.__exit__
+DRIVER_FILES = ["SwcVerif/Model/AlgoRunParse.lean", "SwcVerif/Model/AlgoRunReadFront.lean"]
 LEAN_MODS = ["SwcVerif.Props.C02", "SwcVerif.Props.C02Gen"]
 THEOREMS = [
     "C02.exit_flag_pinned", "C02.consts_pinned", "C02.read_ok_iff", "C02.read_row_count", "C02.read_never_partial", "C02.swallow_truncates",
@@ -1096,6 +1096,128 @@ class GenLoop(Suite):
         r = res["real"]
         return case["class"] + "/" + ("error-" + ("decode" if "decode" in r["msg"] else "row") if "error" in r else f"ok-w{len(r['warn'])}")
 
+# --- the front end of the reader as GENERATED (T37 `readfront`) ----------------------------------------------------------------------------
+RF_KINDS = ["stringio", "textwrapper", "bytes", "path"]
+RF_ENCODINGS = ["utf-8", "latin-1", "utf-16", "detect", "ascii", "UTF-8"]   # codec names Python knows (an unknown name: LookupError in TextIOWrapper / open, not modelled)
+RF_CHARDET = ["real", [None, 0.0], ["ascii", 0.5], ["utf-8", 0.9], ["", 0.99], ["Windows-1252", 0.73], ["utf-8", 0.8999999999999999], [None, 1.0]]
+RF_LOWC = [None, 0.9, 0.5, 0.0, 1.0, 0.73]
+RF_EXTRA = ["None", "empty", "two", "one", "tuple"]
+
+
+class ReadFront(Suite):
+    """`FileReader.__init__` / `__enter__`, `detect_encoding` and the `extras` statement of `parse_swc` as GENERATED from the source (driver op
+    `greadfront`) against the real objects: which of `fname` / `fb` / `f` is set, the encoding finally used, what `__enter__` returns (the caller's
+    stream, a TextIOWrapper over the caller's BytesIO, the file opened by name), the low-confidence warning, the extra column keys"""
+    name = "c02.readfront"
+
+    def cases(self, rng, tier, widen):
+        out = []
+        for kind in RF_KINDS:
+            for enc in RF_ENCODINGS:
+                for cd in RF_CHARDET:
+                    if enc != "detect" and cd != "real" and rng.random() < 0.8:
+                        continue
+                    out.append({"class": f"{kind}/{'detect' if enc == 'detect' else 'named'}", "kind": kind, "encoding": enc, "chardet": cd,
+                                "lowc": rng.choice(RF_LOWC), "enc0": rng.choice(["utf-8", "latin-1", "utf-16"]), "extra": rng.choice(RF_EXTRA)})
+        return out
+
+    def run(self, case):
+        import os
+        import tempfile
+        from fractions import Fraction
+        from io import BytesIO, StringIO, TextIOWrapper
+
+        import chardet
+
+        from swcgeom.core.swc_utils import io as io_mod
+        from swcgeom.core.swc_utils.base import get_names
+        from swcgeom.utils import file as file_mod
+
+        text = "# a\n1 1 0 0 0 1 -1 5 6\n2 3 1 0 0 1 1 7 8\n"
+        kind, tmp = case["kind"], None
+        if kind == "stringio":
+            src, enc0 = StringIO(text), None
+        elif kind == "textwrapper":
+            src = TextIOWrapper(BytesIO(text.encode("ascii")), encoding=case["enc0"]); enc0 = src.encoding
+        elif kind == "bytes":
+            src, enc0 = BytesIO(text.encode("ascii")), None
+        else:
+            fd, tmp = tempfile.mkstemp(suffix=".swc"); os.write(fd, text.encode("ascii")); os.close(fd)
+            src, enc0 = tmp, None
+        answers, real_detect = [], chardet.detect
+
+        def detect(data, *a, **k):
+            r = real_detect(data, *a, **k) if case["chardet"] == "real" else {"encoding": case["chardet"][0], "confidence": case["chardet"][1]}
+            answers.append([r["encoding"], r["confidence"]])
+            return r
+
+        def show(x, rd):
+            if x is None:
+                return "None"
+            if isinstance(x, str):
+                return f"path:{x}"
+            if x is src:
+                return "bytes:1" if isinstance(x, BytesIO) else f"text:1:{x.encoding}"
+            if isinstance(x, TextIOWrapper) and x.buffer is src:
+                return f"wrapped:1:{x.encoding}"
+            if isinstance(x, TextIOWrapper) and x.name == src:
+                return f"opened:{x.name}:{x.encoding}"
+            return f"?{type(x).__name__}"
+
+        kw = {} if case["lowc"] is None else {"low_confidence": case["lowc"]}
+        chardet.detect = detect
+        try:
+            with warnings.catch_warnings(record=True) as w:
+                warnings.simplefilter("always")
+                try:
+                    rd = file_mod.FileReader(src, encoding=case["encoding"], **kw)
+                    f = rd.__enter__()
+                    real = {"fname": show(rd.fname, rd), "fb": show(rd.fb, rd), "f": show(rd.f, rd), "encoding": str(rd.encoding), "ret": show(f, rd)}
+                    rd.__exit__(None, None, None)
+                except Exception as e:  # noqa: BLE001
+                    real = {"error": type(e).__name__, "msg": str(e)}
+            real["warn"] = [str(x.message) for x in w]
+        finally:
+            chardet.detect = real_detect
+            if tmp:
+                os.unlink(tmp)
+        # the extra column keys: the real parse_swc
+        xc = {"None": None, "empty": [], "two": ["a", "b"], "one": ["w"], "tuple": ("p", "q")}[case["extra"]]
+        with warnings.catch_warnings():
+            warnings.simplefilter("ignore")
+            df, _ = io_mod.parse_swc(StringIO(text), names=get_names(None), extra_cols=xc)
+        real["extras"] = list(df.columns[7:])
+        det, conf = answers[0] if answers else [None, 0.0]
+        lowc = 0.9 if case["lowc"] is None else case["lowc"]
+        fc, fl = Fraction(conf), Fraction(lowc)
+        line = (f"greadfront kind={'text' if kind in ('stringio', 'textwrapper') else kind} enc0={enc0} name={tmp or '-'} encoding={case['encoding']} "
+                f"det={'None' if det is None else (det or '_')} conf={fc.numerator * fl.denominator} lowc={fl.numerator * fc.denominator} "
+                f"extra={'None' if xc is None else (','.join(xc) or '_')}")
+        return {"real": real, "line": line, "ncalls": len(answers)}
+
+    def lines(self, case, res):
+        if "exc" in res:
+            return []
+        r = res["real"]
+        if "error" in r:
+            return [(res["line"], "E")]
+        low = [x for x in r["warn"] if "low confidence" in x]
+        exp = (f"ok fname={r['fname']} fb={r['fb']} f={r['f']} encoding={r['encoding']} ret={r['ret']} warn={'0' if low else ''} "
+               f"extras={','.join(r['extras']) or '_'}")
+        return [(res["line"], exp)]
+
+    def oracle(self, case, res):
+        if "exc" in res:
+            return [("readfront-internal-error", f"the harness raised {res['exc']}: {res.get('msg')}")]
+        return []
+
+    def klass(self, case, res):
+        if "exc" in res:
+            return case["class"] + "/exc"
+        r = res["real"]
+        return case["class"] + "/" + ("error" if "error" in r else ("warn" if r["warn"] else "quiet"))
+
+
 # --- files of every size --------------------------------------------------------------------------------------------------------------------
 # "for all texts assembled from the SWC line grammar … for all read options (… encoding)": a text has any number of rows. Whatever reads a
 # file in pieces (a buffer, a block, a sample) has sizes at which its pieces end; files are generated a little beyond every power of two from
@@ -1356,7 +1478,7 @@ class OptionForms(Suite):
         return case["class"] + ("/raised" if isinstance(res, dict) and ("exc" in res or "raised" in res) else "")
 
 
-SUITES = [Read(), Recogniser(), GenLoop(), OptionForms(), LargeFiles()]
+SUITES = [Read(), Recogniser(), GenLoop(), ReadFront(), OptionForms(), LargeFiles()]
 TECHNIQUE = "Lean 4 theorems about a line recogniser + fold model of parse_swc (ok ⇔ no invalid line; one row per data line in order; never partial) pinned to the regexes extracted from the source + differential correspondence against CPython re / read_swc + grammar-directed and malformed-stream oracle"
 LEVEL_TEXT = ("Kernel-checked for every list of lines: the model of parse_swc returns ok exactly when no line is invalid, and then exactly one row per data "
               "line in file order with the tokens' values and the comments in order; an invalid line at any position makes the whole read an error. "
